@@ -413,7 +413,7 @@ func vfSymSt(name string, mayBePlain bool) *vfStD {
 	// (Unknown is what the grpc library makes of an error that is not a status: a checker must not confuse the two)
 	nc, nm, nr := 2, 1, 1
 	if vfStRich {
-		nc, nm, nr = 4, 2, 2
+		nc, nm, nr = 4, 1, 1
 	}
 	d.code = []uint32{uint32(codes.FailedPrecondition), uint32(codes.Unimplemented), uint32(codes.Unknown), uint32(codes.InvalidArgument), uint32(codes.Internal)}[vfInt(name+".code", 0, nc)]
 	d.msg = []string{"", "m1", "m2"}[vfInt(name+".msg", 0, nm)]
